@@ -185,14 +185,23 @@ func VC10_readback() {
 	hdrLen := len(hdr)
 	data := make([]byte, 16384) // files are whole pages
 	copy(data, hdr)
-	name := "cn" // concrete: a symbolic name makes the bucket, and with it every table read, symbolic
+	// concrete names (a symbolic name makes the bucket, and with it every table read,
+	// symbolic): a short one, and one of the maximum length of 4096 bytes
+	name := "cn"
+	if vrt.Bool() {
+		nb := make([]byte, 4096)
+		for i := range nb {
+			nb[i] = 'n'
+		}
+		name = string(nb)
+	}
 	v := vrt.U64()
 	off := (hdrLen + vTableLen + 31) / 32 * 32
 	m := &mappedFile{hdrLen: uint32(hdrLen), mapping: &mmap.Data{Data: data}}
 	m.writeEntryAt(uint32(off), name)
 	vPut64(data, off, v)
 	vPut32(data, hdrLen+4+4*int(hash(name)), uint32(off))
-	vPut32(data, hdrLen, uint32(off+32))
+	vPut32(data, hdrLen, uint32(off+(16+len(name)+31)/32*32))
 	f, err := Parse("f", data)
 	vrt.Assert(err == nil, "readback: Parse accepts the file the writer produced")
 	if err != nil {
